@@ -288,6 +288,12 @@ def monC19 (h : Hist) : Option String :=
           else if (refs.map (·.id)).eraseDups.length < refs.length &&
                   refs.any (fun r => (refs.filter (fun r' => r' = r)).length > 1) then
             some s!"exchange {s.n}: index {shw s.key} holds identical references"
+          -- one stored response named twice: two references with the same identifier AND the same nominated fields
+          -- and values are one variant, however the origin spelled its Vary value ("A, B", "B, A", "a,b"). A second
+          -- reference survives the replacement of the first and keeps the replaced response alive (C08), and
+          -- every new spelling adds one (C19). (Same identifier with DIFFERENT values is the recorded hash collision.)
+          else if h.cls != "collide" && (refs.zipIdx.any fun (r, i) => refs.zipIdx.any fun (r', j) => i < j && r.id = r'.id && r.resolved = r'.resolved) then
+            some s!"exchange {s.n}: index {shw s.key} names the stored response of one variant twice (Vary spelled differently)"
           else none
         | _, _ => none
       | _ => none,
